@@ -273,7 +273,7 @@ def _returns_avoiding(b, avoid):
 
 def r5(ctx):
     o = ctx.fbody(name="open_order", self_adt=MX, trait="")
-    cases = o.local_cases(0)
+    cases = o.expanded_cases(0)
     n_rej = n_acc = 0
     for g, term, bi in cases:
         r = render(term)
@@ -452,7 +452,7 @@ def r7(ctx):
       ret="Option::ok_or_else(HashMap::get(self.instruments, instrument), closure:find_instrument_data::{closure#0}{instrument})", effects=[])
     v = ctx.fbody(name="validate_order_kind_supported", self_adt=MX, trait="")
     tab = {}
-    for g, term, bi in v.local_cases(0):
+    for g, term, bi in v.expanded_cases(0):
         tab[render_guard(g)] = render(term)[:40]
     ctx.check("MockExchange::validate_order_kind_supported",
               tab.get("(OrderKind::eq(order_kind, OrderKind::Market{}))") == "Result::Ok{0: tuple{}}" and len(tab) == 2 and
